@@ -61,7 +61,7 @@ EXTRA_TEXT = {
         "pipeline; half of the correspondence runs use the index.",
  "C08": " Added: _split_adapters / _regroup_into_indexed_adapters modelled (Regroup.lean): regroup_noop, regroup_entries, regroup_wf, split_positions_perm, regroup_origin_perm "
         "(regrouping refers to every given adapter exactly once); the index object is a constructor of the pipeline's Matchable, so pipeline-level correspondence runs in index mode. regroup_names / regroup_every_adapter_named: the name table after regrouping carries, row by row, the names of the given adapters; function-level correspondence of _regroup_into_indexed_adapters (driver op regroup); generated_index_tolerance (index and adapter agree on the tolerance for absolute error counts).",
- "C05": " Added: PairedEndRenamer keeps the ids of the mates matched (paired_rename_keeps_ids_matched); --pair-adapters ranks with repeated sequences; interleaved untrimmed stream. Translator gen_pairfilter observes the pair decision of the real program for every filter x --pair-filter x adapter sides on probe pairs; generated_pair_decisions_documented proves the table equal to the documented combination, filter_modes_documented proves the same of every filter step of the assembly model.",
+ "C05": " Added: PairedEndRenamer keeps the ids of the mates matched (paired_rename_keeps_ids_matched); --pair-adapters ranks with repeated sequences; interleaved untrimmed stream. Translator gen_pairfilter observes the pair decision of the real program for every filter x --pair-filter x adapter sides on probe pairs; generated_pair_decisions_documented proves the table equal to the documented combination, filter_modes_documented proves the same of every filter step of the assembly model. Translator gen_pairranks observes --pair-adapters on lists with repeated sequences (rank = position on the command line); generated_pair_ranks_documented proves the table equal to 'trimmed iff one rank has both its adapters'; the correspondence runs unnamed repeated specifications with the clause recomputed from the command line.",
  "C06": " Added: Statistics.__iadd__ and the per-adapter __iadd__ methods are modelled concretely (StatsMerge.lean) and proved to add: merging the statistics of the chunks of any "
         "chunking, in any order, gives the figures of the whole run (merged_statistics_of_any_chunking, merged_statistics_order_independent, statistics_merge_comm_assoc, "
         "merged_adapter_statistics), which discharges the monoid hypothesis for cutadapt's counters; tied to the code by the driver ops statsmerge/adaptermerge against `a += b` on real Statistics objects.",
